@@ -138,6 +138,11 @@ def evaluate(ctx, b, lib, model_exe, n_pops, per_class):
                 # fixes/C15-3 and C15-4): one stable key whatever the violation class and position
                 key = "detect:violation-in-complex-part"
                 what += " (the violation is in a part of an externally mapped instance)"
+            if kind == "detect" and v.cls == "stray_separator" and not rr.died:
+                # one root cause: ReadTokenSeparator drops a `/` that starts no comment and a `\` that starts no complete
+                # print control directive without reporting anything (routing note from C09's aggregate oracle)
+                key = "detect:stray-slash-or-backslash-between-parameters"
+                what += " (a stray `/` or `\\` stands in front of a parameter)"
             if kind == "detect" and v.cls.startswith("bad_reference_at_") and "[][]" in v.detail and not rr.died:
                 # one root cause: an aggregate of aggregates is kept as raw text (GenericAggregate / SCLundefined), the
                 # references inside it are never resolved - whatever the element type and nesting depth
